@@ -19,7 +19,10 @@ open Gen.C19 (Cmp)
 
 /-- the comparison operators and bookkeeping choices read from the source by the translator -/
 structure Opts where
-  nnMinGuard : Cmp
+  /-- `true`: `get_nn_dist` applies the lower bound `dist > dist_min` for every `dist_min`, also 0 (the
+  repaired code); `false`: only under the guard `dist_min > 0` (the code before the repair, kept as an
+  executable regression witness: `Props/C19.min_zero_coincidence_counterexample`) -/
+  nnMinAlways : Bool
   nnMinCmp : Cmp
   suffixNotLast : Cmp
   suffixKeep : Cmp
@@ -36,7 +39,7 @@ deriving DecidableEq, Repr
 
 /-- what `/repo` says today -/
 def Opts.gen : Opts :=
-  { nnMinGuard := Gen.C19.nnMinGuard, nnMinCmp := Gen.C19.nnMinCmp,
+  { nnMinAlways := Gen.C19.nnMinAlways, nnMinCmp := Gen.C19.nnMinCmp,
     suffixNotLast := Gen.C19.suffixNotLast, suffixKeep := Gen.C19.suffixKeep,
     suffixTailSel := Gen.C19.suffixTailSel, tailByChainOrder := Gen.C19.tailByChainOrder,
     prefixNotFirst := Gen.C19.prefixNotFirst, prefixFirstOrder := Gen.C19.prefixFirstOrder,
@@ -46,7 +49,7 @@ def Opts.gen : Opts :=
 
 /-- the documented behaviour (written by hand; `Props/C19` proves `Opts.gen = Opts.documented`) -/
 def Opts.documented : Opts :=
-  { nnMinGuard := .gt, nnMinCmp := .gt, suffixNotLast := .ne, suffixKeep := .le, suffixTailSel := .gt,
+  { nnMinAlways := true, nnMinCmp := .gt, suffixNotLast := .ne, suffixKeep := .le, suffixTailSel := .gt,
     tailByChainOrder := true, prefixNotFirst := .ne, prefixFirstOrder := 1, prefixKeep := .le,
     prefixHeadSel := .lt, resolveSingle := .le, resolveSameChain := .le, bothSidesFreshId := true }
 
@@ -66,7 +69,7 @@ structure Cfg (α : Type) where
   g4 : Nat → α
   hi : α
   lo : α
-  /-- `min_distance` itself and `0`, for the guard `dist_min > 0` -/
+  /-- `min_distance` itself and `0`, for the guard `dist_min > 0` of the code before the repair -/
   minD : α
   zero : α
 
@@ -77,10 +80,12 @@ structure Row (α : Type) where
   dist : α
 deriving DecidableEq, Repr
 
-/-- `get_nn_dist`: the radius query returns `dist ≤ max` (closed ball, library); the lower bound is
-applied only when `dist_min > 0`. -/
+/-- `get_nn_dist`: the radius query returns `dist ≤ max` (closed ball, library); the lower bound
+`dist > dist_min` is applied to every hit (`nnMinAlways`; before the repair only when `dist_min > 0`,
+so that with `min_distance = 0` a coinciding site passed at distance 0). -/
 def inWin (o : Opts) (c : Cfg α) (x : α) : Bool :=
-  decide (x ≤ c.hi) && (if Cmp.eval o.nnMinGuard c.minD c.zero then Cmp.eval o.nnMinCmp x c.lo else true)
+  decide (x ≤ c.hi) &&
+    (if o.nnMinAlways || decide (c.zero < c.minD) then Cmp.eval o.nnMinCmp x c.lo else true)
 
 /-- first element of the candidates sorted by ascending key (ties: lowest index; excluded) -/
 def argmin (key : Nat → α) : List Nat → Option (Nat × α)
